@@ -26,6 +26,7 @@ inductive GStmt
   | ret (what : String)                     -- "true" | "false" | "ok" | "err"
   | retExp (c : GExp)                       -- `return <boolean expression>`
   | act (what : String)                     -- a call with effects
+  | assign (name : String) (c : GExp)       -- assignment to a tracked boolean variable
   | opaque (what : String)                  -- not interpreted (select, …): evaluation stops here
   | skip
   | unknown (src : String)
@@ -38,6 +39,7 @@ structure Env where
   i : String → Option Int                   -- integer atoms
   fn : String → Option GProg                -- boolean helpers
   pass : String → Bool := fun _ => false    -- opaque statements to step over (as if they succeeded)
+  obs : String → List String := fun _ => [] -- per action: the tracked variables whose current values are recorded with it
 
 inductive Out
   | ret (what : String)
@@ -51,82 +53,98 @@ structure Res where
   out : Out
   deriving Repr, DecidableEq, Inhabited
 
+abbrev Store := String → Option Bool
+
+def Store.set (st : Store) (n : String) (v : Bool) : Store := fun x => if x = n then some v else st x
+
+def showB (b : Option Bool) : String := match b with | some true => "true" | some false => "false" | none => "?"
+
+/-- an action as recorded: its name and the current values of the variables observed with it. -/
+def actLabel (env : Env) (st : Store) (w : String) : String :=
+  match env.obs w with
+  | [] => w
+  | ns => w ++ "[" ++ ",".intercalate (ns.map (fun n => n ++ "=" ++ showB (st n))) ++ "]"
+
 mutual
 /-- boolean expressions; `none` = stuck (unknown construct, unknown atom, out of fuel). -/
-def evalE (env : Env) : Nat → GExp → Option Bool
+def evalE (env : Env) (st : Store) : Nat → GExp → Option Bool
   | 0, _ => none
   | f + 1, e =>
     match e with
     | .tt => some true
     | .ff => some false
-    | .v n => env.b n
+    | .v n => st n
     | .eq n k => (env.i n).map (fun x => decide (x = k))
     | .ne n k => (env.i n).map (fun x => decide (x ≠ k))
     | .lt n k => (env.i n).map (fun x => decide (x < k))
     | .le n k => (env.i n).map (fun x => decide (x ≤ k))
     | .gt n k => (env.i n).map (fun x => decide (x > k))
     | .ge n k => (env.i n).map (fun x => decide (x ≥ k))
-    | .not a => (evalE env f a).map (!·)
+    | .not a => (evalE env st f a).map (!·)
     | .and a b =>
-        match evalE env f a with
+        match evalE env st f a with
         | some false => some false           -- Go's && does not evaluate the right operand
-        | some true => evalE env f b
+        | some true => evalE env st f b
         | none => none
     | .or a b =>
-        match evalE env f a with
+        match evalE env st f a with
         | some true => some true
-        | some false => evalE env f b
+        | some false => evalE env st f b
         | none => none
     | .call fn =>
         match env.fn fn with
         | none => none
         | some p =>
-          match evalS env f p with
+          match (evalS env st f p).1 with
           | ⟨_, .ret "true"⟩ => some true
           | ⟨_, .ret "false"⟩ => some false
           | _ => none
     | .unknown _ => none
 
-/-- statement lists: the actions performed and how evaluation ends. -/
-def evalS (env : Env) : Nat → List GStmt → Res
-  | _, [] => ⟨[], .fell⟩
-  | 0, _ :: _ => ⟨[], .stuck "fuel"⟩
+/-- statement lists: the actions performed, how evaluation ends, and the tracked variables afterwards. -/
+def evalS (env : Env) (st : Store) : Nat → List GStmt → Res × Store
+  | _, [] => (⟨[], .fell⟩, st)
+  | 0, _ :: _ => (⟨[], .stuck "fuel"⟩, st)
   | f + 1, s :: rest =>
-    let cont (r : Res) : Res :=
-      match r.out with
-      | .fell => let r2 := evalS env f rest; ⟨r.acts ++ r2.acts, r2.out⟩
+    let cont (r : Res × Store) : Res × Store :=
+      match r.1.out with
+      | .fell => let r2 := evalS env r.2 f rest; (⟨r.1.acts ++ r2.1.acts, r2.1.out⟩, r2.2)
       | _ => r
     match s with
     | .ifThen c body =>
-        match evalE env f c with
-        | some true => cont (evalS env f body)
-        | some false => evalS env f rest
-        | none => ⟨[], .stuck "condition"⟩
+        match evalE env st f c with
+        | some true => cont (evalS env st f body)
+        | some false => evalS env st f rest
+        | none => (⟨[], .stuck "condition"⟩, st)
     | .ifElse c a b =>
-        match evalE env f c with
-        | some true => cont (evalS env f a)
-        | some false => cont (evalS env f b)
-        | none => ⟨[], .stuck "condition"⟩
+        match evalE env st f c with
+        | some true => cont (evalS env st f a)
+        | some false => cont (evalS env st f b)
+        | none => (⟨[], .stuck "condition"⟩, st)
     | .switchOn n cases dflt =>
         match env.i n with
-        | none => ⟨[], .stuck "switch tag"⟩
+        | none => (⟨[], .stuck "switch tag"⟩, st)
         | some x =>
           match cases.find? (fun c => c.1.contains x) with
-          | some c => cont (evalS env f c.2)
-          | none => cont (evalS env f dflt)
-    | .ret w => ⟨[], .ret w⟩
+          | some c => cont (evalS env st f c.2)
+          | none => cont (evalS env st f dflt)
+    | .ret w => (⟨[], .ret w⟩, st)
     | .retExp c =>
-        match evalE env f c with
-        | some true => ⟨[], .ret "true"⟩
-        | some false => ⟨[], .ret "false"⟩
-        | none => ⟨[], .stuck "condition"⟩
-    | .act w => let r2 := evalS env f rest; ⟨w :: r2.acts, r2.out⟩
-    | .opaque w => if env.pass w then evalS env f rest else ⟨[], .opaque w⟩
-    | .skip => evalS env f rest
-    | .unknown src => ⟨[], .stuck src⟩
+        match evalE env st f c with
+        | some true => (⟨[], .ret "true"⟩, st)
+        | some false => (⟨[], .ret "false"⟩, st)
+        | none => (⟨[], .stuck "condition"⟩, st)
+    | .act w => let r2 := evalS env st f rest; (⟨actLabel env st w :: r2.1.acts, r2.1.out⟩, r2.2)
+    | .assign n c =>
+        match evalE env st f c with
+        | some v => evalS env (st.set n v) f rest
+        | none => (⟨[], .stuck "assignment"⟩, st)
+    | .opaque w => if env.pass w then evalS env st f rest else (⟨[], .opaque w⟩, st)
+    | .skip => evalS env st f rest
+    | .unknown src => (⟨[], .stuck src⟩, st)
 end
 
-def run (env : Env) (p : GProg) : Res := evalS env 64 p
+def run (env : Env) (p : GProg) : Res := (evalS env env.b 64 p).1
 
 /-- all boolean valuations of a list of names. -/
 def boolEnvs : List String → List (String → Option Bool)
